@@ -933,3 +933,206 @@ class GenMatch(Gen):
         if r < 0.5:
             return self.unpack_stmt(sc, d)
         return super().stmt(sc, d)
+
+
+# =================================================================================================
+# err profile (C04): planted faults under nested try / catch / finally
+# =================================================================================================
+FAULT_KINDS = ("throw_str", "throw_obj", "index", "type", "assert", "args", "native", "interp", "assert_eq")
+
+class GenErr(GenFn):
+    """Skeletons of nested try / typed catches / finally across function calls, native callbacks (each / keep / fold),
+    generators and string construction, with one or more planted faults. Shape guards: SG-B1 (no control flow leaves a
+    try/catch that has a finally; catch bodies of such a try cannot fail), SG-B2 (call results inside try go to fresh
+    names), SG-B5 (no map-pattern catch), SG-B6 (errors that cross a generator boundary are caught untyped and the
+    handler does not inspect the value), SG-O1 (faulting operator expressions sit in a used position)."""
+    def __init__(self, rng, **kw):
+        super().__init__(rng, **kw)
+        self.err_id = 0
+        self.try_depth = 0
+        self.crossing_generator = False
+
+    def next_err(self):
+        self.err_id += 1
+        return self.err_id
+
+    def fault(self, sc, d, kinds=None):
+        """Statements that fail at run time. Returns (stmts, thrown_type) - thrown_type is the type name a typed catch
+        would see ('String' for runtime errors and thrown strings, 'ErrN' for thrown objects)."""
+        kind = self.pick(kinds or FAULT_KINDS)
+        n = self.next_err()
+        tmp = self.fresh("q")
+        if kind == "throw_str":
+            return [("throw", ("str", ["e%d" % n]))], "String", "e%d" % n
+        if kind == "throw_obj":
+            body = [("str", ["obj%d" % n])]
+            obj = ("map", [("@type", ("str", ["Err%d" % (n % 3)])), ("@display", ("fn", [], None, body, False, [], None)), ("code", ("int", n))])
+            return [("throw", obj)], "Err%d" % (n % 3), "obj%d" % n
+        if kind == "index":
+            return [("assign", ("var", tmp), ("index", ("list", [("int", 1)]), ("int", 5 + n % 3)))], "String", None
+        if kind == "type":
+            return [("assign", ("var", tmp), ("bin", self.pick(["+", "-", "*", "<"]), ("int", 1), self.pick([("null",), ("str", ["a"]), ("list", [])])))], "String", None
+        if kind == "assert":
+            return [("call", ("var", "assert"), [("bin", "==", ("int", 1), ("int", 2))])], "String", None
+        if kind == "assert_eq":
+            return [("call", ("var", "assert_eq"), [("int", n), ("int", n + 1)])], "String", None
+        if kind == "args":
+            f = self.fresh("h")
+            return [("assign", ("var", f), ("fn", [(("var", "a"), None), (("var", "b"), None)], None, [("var", "a")], False, [], None)),
+                    ("assign", ("var", tmp), ("call", ("var", f), [("int", 1)] if self.chance(0.5) else [("int", 1), ("int", 2), ("int", 3)]))], "String", None
+        if kind == "interp":
+            return [("assign", ("var", tmp), ("str", ["pre", ("interp", ("bin", "+", ("int", 1), ("null",))), "post"]))], "String", None
+        if kind == "native":
+            x = self.fresh("x")
+            inner_stmts, ty, shown = self.fault(sc, d, kinds=("throw_str", "throw_obj", "index", "type"))
+            k = self.rng.randint(0, 2)
+            cb_body = [("if", [(("bin", "==", ("var", x), ("int", k)), inner_stmts)], None, "block"), ("var", x)]
+            cbname = self.fresh("cb")
+            src = ("list", [("int", i) for i in range(3)])
+            form = self.rng.random()
+            params = [(("var", x), None)]
+            if form < 0.4:
+                call = ("mcall", ("mcall", src, "each", [("var", cbname)]), "to_list", [])
+            elif form < 0.6:
+                cb_body[-1] = ("bool", True)
+                call = ("mcall", ("mcall", src, "keep", [("var", cbname)]), "to_tuple", [])
+            elif form < 0.8:
+                a = self.fresh("acc")
+                params = [(("var", a), None), (("var", x), None)]
+                cb_body[-1] = ("bin", "+", ("var", a), ("var", x))
+                call = ("mcall", src, "fold", [("int", 0), ("var", cbname)])
+            else:
+                call = ("mcall", ("mcall", src, "each", [("var", cbname)]), "consume", [])
+            cb = ("fn", params, None, cb_body, False, [], "block")
+            return [("assign", ("var", cbname), cb), ("assign", ("var", tmp), call)], ty, shown
+        raise ValueError(kind)
+
+    def deep_fault(self, sc, d):
+        """A fault planted `depth` calls down a chain of functions defined right here."""
+        stmts, ty, shown = self.fault(sc, d)
+        depth = self.rng.randint(1, 3)
+        names = [self.fresh("dz") for _ in range(depth)]
+        out = []
+        body = [("print", [("str", ["in %s" % names[-1]])])] + stmts + [("int", 0)]
+        out.append(("assign", ("var", names[-1]), ("fn", [], None, body, False, [], "block")))
+        for i in range(depth - 2, -1, -1):
+            body = [("print", [("str", ["in %s" % names[i]])]), ("call", ("var", names[i + 1]), []), ("print", [("str", ["unreachable"])]), ("int", 0)]
+            out.append(("assign", ("var", names[i]), ("fn", [], None, body, False, [names[i + 1]], "block")))
+        tmp = self.fresh("q")
+        out.append(("assign", ("var", tmp), ("call", ("var", names[0]), [])))
+        return out, ty, shown
+
+    def gen_fault(self, sc, d):
+        """A fault inside a generator body, consumed by for / to_list (errors crossing the generator boundary)."""
+        stmts, ty, shown = self.fault(sc, d, kinds=("throw_str", "index", "type", "throw_obj"))
+        g = self.fresh("gz")
+        body = [("yield", ("int", 1))] + stmts + [("yield", ("int", 2))]
+        out = [("assign", ("var", g), ("fn", [], None, body, True, [], "block"))]
+        if self.chance(0.5):
+            y = self.fresh("y")
+            out.append(("for", [("var", y)], ("call", ("var", g), []), [("print", [("var", y)])]))
+        else:
+            tmp = self.fresh("q")
+            out.append(("assign", ("var", tmp), ("mcall", ("call", ("var", g), []), "to_list", [])))
+        return out, "GEN", shown
+
+    def simple_stmts(self, sc, d, n=2):
+        """Statements that cannot fail (prints and fresh assignments of literals / total arithmetic)."""
+        out = []
+        for _ in range(self.rng.randint(0, n)):
+            if self.chance(0.5):
+                self.trace_id += 1
+                out.append(("trace", self.trace_id, ("int", self.rng.randint(0, 9))))
+            else:
+                name = self.fresh("s")
+                sc.vars[name] = Var(name, "int", protected=True)
+                out.append(("assign", ("var", name), ("bin", "+", ("int", self.rng.randint(0, 9)), ("int", self.rng.randint(0, 9)))))
+        return out
+
+    def try_stmt(self, sc, d, may_escape=True):
+        """Returns (stmts, escapes) - escapes: True when an error may leave this try expression."""
+        self.try_depth += 1
+        try:
+            state = self.fresh("st")
+            pre = [("assign", ("var", state), ("list", []))]
+            sc.vars[state] = Var(state, "list", protected=True)
+            has_finally = self.chance(0.35)
+            outer_sc = sc
+            sc = Scope(outer_sc); sc.vars = dict(outer_sc.vars)   # names first assigned inside the try are not definitely assigned after it
+            body = [("mcall", ("var", state), "push", [("int", 1)])] + self.simple_stmts(sc, d)
+            thrown = None
+            r = self.rng.random()
+            if r < 0.75:
+                k = self.rng.random()
+                if k < 0.45:
+                    stmts, ty, shown = self.fault(sc, d)
+                elif k < 0.75:
+                    stmts, ty, shown = self.deep_fault(sc, d)
+                elif k < 0.9 and d < 2 and self.try_depth < 3:
+                    # a nested try whose error escapes (typed catches that do not accept it / rethrow in catch)
+                    stmts, esc = self.try_stmt(sc, d + 1)
+                    ty, shown = (esc if esc else (None, None))
+                else:
+                    stmts, ty, shown = self.gen_fault(sc, d)
+                body += stmts
+                if ty is not None:
+                    thrown = (ty, shown)
+                body += [("mcall", ("var", state), "push", [("int", 2)])]
+            body += self.simple_stmts(sc, d, 1)
+            body.append(("str", ["try-value"]))
+            catches = []
+            accepted = False
+            crossing = thrown is not None and thrown[0] == "GEN"
+            if not crossing:
+                for _ in range(self.rng.randint(0, 2)):
+                    hint = self.pick(["String", "Err0", "Err1", "Err2", "Number", "Map"])
+                    e = self.fresh("e")
+                    cbody = [("print", [("str", ["catch %s" % hint]), ("call", ("var", "type"), [("var", e)])])]
+                    if thrown and thrown[1] is not None and hint == thrown[0]:
+                        cbody.append(("print", [("var", e)]))
+                    if hint.startswith("Err"):
+                        cbody.append(("print", [("access", ("var", e), "code")]))
+                    cbody.append(("str", ["caught-%s" % hint]))
+                    catches.append((("var", e), hint, cbody))
+            e = self.fresh("e")
+            last_body = [("print", [("str", ["catch any"])])]
+            if thrown and not crossing:
+                last_body.append(("print", [("call", ("var", "type"), [("var", e)])]))
+                if thrown[1] is not None and not any(h == thrown[0] for (_, h, _) in catches):
+                    last_body.append(("print", [("var", e)]))
+            escapes = None
+            if not has_finally and may_escape and thrown and self.chance(0.3):
+                # the handler fails again: the new error leaves this try
+                n = self.next_err()
+                last_body.append(("throw", ("str", ["re%d" % n])))
+                escapes = ("String", "re%d" % n)
+            else:
+                last_body.append(("str", ["caught-any"]))
+            catches.append((("var", e) if self.chance(0.8) or len(last_body) > 2 else None, None, last_body))
+            fin = None
+            if has_finally:
+                fin = [("mcall", ("var", state), "push", [("int", 3)]), ("print", [("str", ["finally"])]), ("str", ["finally-value"])]
+            res = self.fresh("tv")
+            sc = outer_sc
+            sc.vars[res] = Var(res, "str", protected=True)
+            node = ("try", body, catches, fin)
+            out = pre + [("assign", ("var", res), node), ("print", [("var", res), ("var", state)])]
+            if escapes and any(h == "String" for (_, h, _) in catches[:-1]) and thrown and thrown[0] == "String":
+                # a typed String catch took it first: nothing escapes
+                escapes = None
+            if escapes and thrown and any(h == thrown[0] for (_, h, _) in catches[:-1]):
+                escapes = None
+            return out, escapes
+        finally:
+            self.try_depth -= 1
+
+    def stmt(self, sc, d):
+        r = self.rng.random()
+        if r < 0.4 and d <= 1:
+            out, esc = self.try_stmt(sc, d)
+            return out
+        if r < 0.43 and d == 0:
+            # an uncaught fault ends the program
+            stmts, ty, shown = self.fault(sc, d, kinds=("throw_str", "throw_obj", "index", "assert", "type"))
+            return stmts
+        return Gen.stmt(self, sc, d)
